@@ -188,6 +188,9 @@ type Renderer struct {
 	// KeepSpell: never change the spelling / style chosen in the tree
 	// (unset spellings fall back to the plainest admissible one).
 	KeepSpell bool
+	// counters (observability for reach conditions)
+	NeededParens    int
+	RedundantParens int
 }
 
 func (r *Renderer) chance(p float64) bool {
@@ -242,9 +245,13 @@ func (r *Renderer) Render(e Expr) string {
 
 func (r *Renderer) render(e Expr, min int, parens int) string {
 	need := level(e) < min
+	if need {
+		r.NeededParens++
+	}
 	if !need && parens > 0 && r.chance(0.12) {
 		need = true
 		parens--
+		r.RedundantParens++
 	}
 	if need {
 		return "(" + r.ows() + r.render(e, 1, parens) + r.ows() + ")"
@@ -272,7 +279,14 @@ func (r *Renderer) render(e Expr, min int, parens int) string {
 		case BindIndexValue:
 			b = n.Name + r.ows() + "," + r.ows1() + n.Name2
 		}
-		return op + r.ws() + r.RenderSel(n.Sel) + r.ws() + "as" + r.ws() + b + r.ows1() + "{" + r.ows1() + r.render(n.Body, 1, parens) + r.ows1() + "}"
+		body := r.render(n.Body, 1, parens)
+		closeWS := r.ows1()
+		if closeWS == "" && len(body) > 0 && body[len(body)-1] >= '0' && body[len(body)-1] <= '9' {
+			// a number literal must be followed by whitespace, ")" or the end
+			// of input - "}" is not in that set
+			closeWS = r.ws()
+		}
+		return op + r.ws() + r.RenderSel(n.Sel) + r.ws() + "as" + r.ws() + b + r.ows1() + "{" + r.ows1() + body + closeWS + "}"
 	case *Match:
 		return r.renderMatch(n)
 	}
@@ -842,3 +856,76 @@ func Size(e Expr) int {
 }
 
 func isLN(r rune) bool { return unicode.Is(unicode.L, r) || unicode.Is(unicode.N, r) }
+
+// Diff names the first structural difference between two trees (pre-order),
+// or "" if they are equal. Used for violation signatures.
+func Diff(a, b Expr) string {
+	ka, kb := fmt.Sprintf("%T", a), fmt.Sprintf("%T", b)
+	if ka != kb {
+		return "node-kind:" + strings.TrimPrefix(ka, "*xgen.") + "-vs-" + strings.TrimPrefix(kb, "*xgen.")
+	}
+	selDiff := func(x, y Sel) string {
+		if x.JSONPointer != y.JSONPointer {
+			return "selector-type"
+		}
+		if fmt.Sprintf("%q", x.Parts) != fmt.Sprintf("%q", y.Parts) {
+			return "selector-path"
+		}
+		return ""
+	}
+	switch x := a.(type) {
+	case *Or:
+		y := b.(*Or)
+		if d := Diff(x.L, y.L); d != "" {
+			return d
+		}
+		return Diff(x.R, y.R)
+	case *And:
+		y := b.(*And)
+		if d := Diff(x.L, y.L); d != "" {
+			return d
+		}
+		return Diff(x.R, y.R)
+	case *Not:
+		return Diff(x.X, b.(*Not).X)
+	case *Quant:
+		y := b.(*Quant)
+		if x.All != y.All {
+			return "quantifier-op"
+		}
+		if d := selDiff(x.Sel, y.Sel); d != "" {
+			return "quantifier-" + d
+		}
+		if x.Mode != y.Mode {
+			return "binding-mode"
+		}
+		nx, ny := [2]string{x.Name, x.Name2}, [2]string{y.Name, y.Name2}
+		switch x.Mode {
+		case BindDefault, BindIndex:
+			nx[1], ny[1] = "", ""
+		case BindValue:
+			nx[0], ny[0] = "", ""
+		}
+		if nx != ny {
+			return "binding-names"
+		}
+		return Diff(x.Body, y.Body)
+	case *Match:
+		y := b.(*Match)
+		if x.Op != y.Op {
+			return "operator:" + x.Op.String() + "-vs-" + y.Op.String()
+		}
+		if d := selDiff(x.Sel, y.Sel); d != "" {
+			return d
+		}
+		if x.Op.HasValue() {
+			if (x.Lit == nil) != (y.Lit == nil) {
+				return "literal-presence"
+			}
+			if x.Lit != nil && x.Lit.S != y.Lit.S {
+				return "literal-text"
+			}
+		}
+	}
+	return ""
+}
